@@ -467,7 +467,7 @@ def gen_matrix(rng) -> dict[str, Any]:
     for _ in range(3):
         datas.append(V.enc({
             "a": rng.choice(["GA", {"x": ["u", "v"]}, None]), "b": rng.choice([0, 1, "GB"]), "c": rng.choice(["GC", True]), "k": rng.choice(["GK", "x"]),
-            "p": rng.choice(["GP", {"x": "px"}]), "q": "GQ", "g1": rng.choice([True, False, "G1"]), "g2": {"x": "G2X"}, "xs": rng.choice([[], [1, 2], ["p"]]), "d": {"GA": 1, "GK": 2, "x": 3},
+            "p": rng.choice(["GP", {"x": "px"}]), "q": "GQ", "g1": rng.choice([True, False, "G1", None, None]), "g2": rng.choice([{"x": "G2X"}, {"x": "G2X"}, None]), "xs": rng.choice([[], [1, 2], ["p"]]), "d": {"GA": 1, "GK": 2, "x": 3},
         }))
     return {"kind": "matrix", "main": main, "partials": partials, "datas": datas, "async": rng.random() < 0.3, "async_analysis": rng.random() < 0.3}
 
